@@ -18,6 +18,7 @@ sweep over all 3 x 256 x 256 immediates in both modes, recorded as
   gen_sim_deviations  (simulation mode: every (axis,n,d) whose output is not the
                        single instruction rot_axis n d on the same register)
   gen_hw_lines        (hardware mode, d = 0..4: the emitted (n', d') for n = 0..255)
+  gen_hw_deviations   (hardware mode: every (axis,n,d) whose output is not one rot_axis on the same register)
   gen_hw_accepted_dgt4 (hardware mode, d > 4: every (axis,n,d) NOT rejected)
 
 usage: nv_decomp.py <repo> <out.v> [--json <path>]
@@ -170,9 +171,26 @@ def build_rows(ns):
     return rows
 
 
+def safe_resolve(ns, out, wire_of_id):
+    """resolve() that never raises: an instruction it does not understand becomes an
+    ('unresolved', text) entry so that the deviation is recorded as data."""
+    try:
+        return resolve(ns, out, wire_of_id)
+    except GenError as e:
+        return [("unresolved", str(e)[:200], [str(i) for i in out][:20])]
+
+
 def rotation_sweep(ns):
-    """Exhaustive: all axes x n, d in 0..255 x both modes."""
-    sim_dev, hw_lines, hw_acc = [], [], []
+    """Exhaustive: all axes x n, d in 0..255 x both modes.  Records WHAT WAS EMITTED for
+    every (axis, n, d, mode) - possibly nothing, possibly several instructions - and
+    never raises on an unexpected shape:
+      sim_dev : simulation mode, emitted list != [rot_axis n d on the same qubit]
+      hw_lines: hardware mode, d <= 4: (n', d') when exactly one rot_axis on the same qubit
+                was emitted, None when rejected (ValueError) or the shape is different
+      hw_dev  : hardware mode, any d: emitted list of a different shape (nothing, several, other axis...)
+      hw_acc  : hardware mode, d > 4: accepted with a single rotation (n', d')
+    """
+    sim_dev, hw_lines, hw_acc, hw_dev = [], [], [], []
     reg = qreg(ns, 0)
     count = 0
     for ax in AXES:
@@ -183,20 +201,26 @@ def rotation_sweep(ns):
                 mk = lambda: [ns.core.SetInstruction(reg=reg, imm=ns.Immediate(2)),
                               cls(reg=reg, imm0=ns.Immediate(n), imm1=ns.Immediate(d))]
                 # simulation mode
-                out = transpile(ns, mk(), False)
-                ops = resolve(ns, out, {2: 0})
+                try:
+                    ops = safe_resolve(ns, transpile(ns, mk(), False), {2: 0})
+                except Exception as e:  # noqa: the transpiler refused an encodable rotation
+                    ops = [("raised", type(e).__name__, str(e)[:200])]
                 count += 1
                 if ops != [("rot", ax, 0, n, d)]:
                     sim_dev.append((ax, n, d, ops))
                 # hardware mode
+                res, ops = None, None
                 try:
-                    out = transpile(ns, mk(), True)
-                    ops = resolve(ns, out, {2: 0})
-                    if len(ops) != 1 or ops[0][0] != "rot" or ops[0][1] != ax or ops[0][2] != 0:
-                        raise GenError(f"hardware-mode rotation rot_{ax} {n} {d} expands to {ops}")
-                    res = (ops[0][3], ops[0][4])
+                    ops = safe_resolve(ns, transpile(ns, mk(), True), {2: 0})
                 except ValueError:
-                    res = None
+                    ops = None  # rejected (expected for d > 4)
+                except Exception as e:  # noqa
+                    ops = [("raised", type(e).__name__, str(e)[:200])]
+                if ops is not None:
+                    if len(ops) == 1 and ops[0][0] == "rot" and ops[0][1] == ax and ops[0][2] == 0:
+                        res = (ops[0][3], ops[0][4])
+                    else:
+                        hw_dev.append((ax, n, d, ops))
                 count += 1
                 if d <= 4:
                     lines[d].append(res)
@@ -204,11 +228,11 @@ def rotation_sweep(ns):
                     hw_acc.append((ax, n, d, res))
         for d in range(5):
             hw_lines.append((ax, d, lines[d]))
-    return sim_dev, hw_lines, hw_acc, count
+    return sim_dev, hw_lines, hw_acc, count, hw_dev
 
 
 def emit(rows, sweep, path):
-    sim_dev, hw_lines, hw_acc, count = sweep
+    sim_dev, hw_lines, hw_acc, count, hw_dev = sweep
     o = []
     o.append("(* GENERATED by gen/nv_decomp.py from the live NVSubroutineTranspiler - do not edit *)")
     o.append("From Coq Require Import ZArith List Bool String.")
@@ -232,6 +256,8 @@ def emit(rows, sweep, path):
     # deviations are rendered as readable strings: the expected value is the empty list
     o.append("Definition gen_sim_deviations : list string := " +
              lst([s(f"rot_{ax} {n} {d} -> {len(ops)} instr") for ax, n, d, ops in sim_dev[:50]]) + ".")
+    o.append("Definition gen_hw_deviations : list string := " +
+             lst([s(f"rot_{ax} {n} {d} -> {len(ops)} instr") for ax, n, d, ops in hw_dev[:50]]) + ".")
     o.append("Definition gen_hw_accepted_dgt4 : list string := " +
              lst([s(f"rot_{ax} {n} {d} -> {res[0]} {res[1]}") for ax, n, d, res in hw_acc[:50]]) + ".")
     o.append(f"Definition gen_sweep_count : Z := {count}%Z.")
@@ -247,8 +273,9 @@ def main():
     if "--json" in sys.argv:
         jp = sys.argv[sys.argv.index("--json") + 1]
         json.dump(dict(rows=[dict(name=r["name"], place=r["place"], ops=r["ops"], meta=r["meta"]) for r in rows],
-                       sim_dev=[(a, n, d, ops) for a, n, d, ops in sweep[0]][:50],
-                       hw_acc=sweep[2][:50], sweep_count=sweep[3],
+                       sim_dev=[(a, n, d, ops) for a, n, d, ops in sweep[0]],
+                       hw_dev=[(a, n, d, ops) for a, n, d, ops in sweep[4]],
+                       hw_acc=sweep[2], sweep_count=sweep[3],
                        hw_lines=[(a, d, line) for a, d, line in sweep[1]]), open(jp, "w"))
 
 
